@@ -255,7 +255,7 @@ Definition obs_kind (kind : N) : N -> bytes -> N :=
 Definition alphabet (id : N) : list N :=
   match id with
   | 0 => map N.of_nat (seq 0 256)
-  | 1 => [0; 1; 127; 128; 129; 255]
+  | 1 => [0; 1; 127; 128; 129; 130; 131; 132; 255]
   | _ => [0; 1; 2; 39; 40; 79; 80; 127; 128; 129; 130; 255]
   end.
 
